@@ -141,7 +141,8 @@ claim("C13", "symx",
       "free in the thorough tier), placement-free base polygons and solids, curved shapes with free axes: circum-ball through every vertex, in-ball tangent "
       "to every edge / face plane from inside, centred balls centred at the exact centroid with the extreme vertex / face distance, and RuntimeError wherever "
       "the parameters violate the existence equation by 1 %. The residual test of the code is a polynomial branch condition through the exact lstsq stub. "
-      "minimal_bounding_*: only coxeter's wrapper around miniball (exact contract stub on concrete points).",
+      "minimal_bounding_*: only coxeter's wrapper around miniball (exact contract stub on concrete points), incl. its retry loop under an environment "
+      "model (the first k miniball calls raise LinAlgError, rowan.random.rand returns chosen rational unit quaternions, exact quaternion algebra).",
       "reals not floats (A1); lstsq/miniball/qhull/kabsch contract stubs; minimality of the miniball result is third-party code (outside)",
       "DESIGN.md §6 C13")
 claim("C18", "z3+crosshair",
@@ -157,14 +158,14 @@ claim("C20", "symx+crosshair",
       "All seven writers run on meshes with mixed face degrees (corner-cut cube, frustum, L prism; Polyhedron and ConvexPolyhedron) placed by a free scale "
       "and translation; a symbolic coordinate prints as a token, independent parsers per format must recover a token denoting the same scalar at every "
       "vertex slot, the same cycles (index base), declared counts equal to the data, STL fan triangles with outward normals and the polyhedron's vertices; "
-      "the shape is unchanged. CrossHair: save() dispatches the seven strings and raises ValueError for any other string.",
+      "the shape's whole stored state (vertices, faces, cached centroid / volume / equations) and derived answers are unchanged. CrossHair: save() dispatches the seven strings and raises ValueError for any other string.",
       "reals not floats (A1); decimal rendering of doubles is outside the encoding (bit-exact read-back only on the float64 code at the path samples)",
       "DESIGN.md §6 C20")
 
 claim("C14", "symx",
       "symbolic execution of distance_to_surface with a free direction parameter and turn count (exact angle algebra); boundary-membership oracle decided by z3 (QF_NRA)",
       "theta = atan2(2t, 1-t^2) + 2 pi k with t a free real and k in {-1,0,1} (thorough -2..2), i.e. any real angle incl. outside [0, 2 pi). Circle and "
-      "Ellipse fully free; ConvexPolygon on six concrete polygons (irregular, axis-aligned edges, offsets); ConvexSpheropolygon on three cores. The real code "
+      "Ellipse fully free; ConvexPolygon on six concrete polygons (irregular, axis-aligned edges, offsets); ConvexSpheropolygon on regular and irregular cores with turn counts -1, 0, 1. The real code "
       "runs through symx's angle algebra (arctan2, mod 2 pi, comparisons as half-plane + cross-product predicates, exact cos/sin/tan); claims: the point "
       "centroid + d(cos, sin) lies on the boundary (all edge half-planes <= 0 and one = 0; ellipse form = 1; distance to the core = r).",
       "reals not floats (A1; theta = +-pi/2 excluded for polygons); concrete polygons n <= 6; path budget",
@@ -174,20 +175,21 @@ claim("C15", "symx",
       "Polygon(test_simple=True) on simple, bow-tie, pentagram and arrow cycles with one vertex free in [-8,8]^2 (xy-plane and a tilted plane): the sweep's "
       "events, red-black tree and epsilon comparisons run under the path engine (hundreds of paths); on each path accepted => not clearly crossing, rejected "
       "=> not clearly simple, any other outcome => input not margin-separated. Planarity with a free off-plane displacement; convex classes with a free "
-      "extra point and with every other order of a convex quadrilateral under free placement (stored counter-clockwise about the normal); nine radius / "
+      "extra point and with every other order of a convex quadrilateral under free placement (stored counter-clockwise about the normal), also with an "
+      "explicit normal of either sign; simple polygons listed clockwise / counter-clockwise from any start vertex with an explicit normal of either sign; nine radius / "
       "axis / rounding-radius constructors with a free real; duplicates / too few vertices; stored arrays never alias the caller's, caller's arrays unchanged.",
       "reals not floats (A1); margins on orientation products; one free vertex; qhull verdict = exact hull stub",
       "DESIGN.md §6 C15")
 
 claim("C17", "symx+z3",
-      "symbolic execution of make_vertices with free family parameters vs exact plane-triple enumeration (QF_LRA); z3-enumerated rational grid through the real constructor; exact algebraic evaluation of the n-gon families",
+      "symbolic execution of make_vertices with free family parameters vs exact plane-triple enumeration (QF_LRA); z3-enumerated rational grid and z3-enumerated n in 3..200 through the real constructor; exact algebraic evaluation of the n-gon families",
       "TruncationPlaneShapeFamily.make_vertices with a and c free reals (323+), one free parameter along lines (423) and a free truncation (truncated "
       "tetrahedron): on every parameter cell reached, the returned vertex set equals the harness's own exact enumeration over all plane triples (conditioned "
       "on the exact vertices being 1e-3 apart). get_shape through the real constructor on rational grids incl. edges and corners (grid index enumerated by "
       "z3): vertex set, V-E+F and facet count against the exact intersection. Domain guards with free parameters. RegularNGonFamily and the uniform prism / "
       "antiprism / pyramid / dipyramid families for n with closed-form trigonometry (exact algebraic arithmetic): unit area/volume, first vertex on +x, "
-      "centred, equal edges, counts.",
-      "reals not floats (A1: thresholds / round(6) exact); Family523 geometry not applicable (guards only); n in {3,4,5,6,8,10,12}; path budget on cells",
+      "centred, equal edges, counts; and the same claims natively (float64, tolerance 1e-9) for every n in 3..200, n enumerated by z3 until unsat.",
+      "reals not floats (A1: thresholds / round(6) exact); Family523 geometry not applicable (guards only); exact arithmetic for n in {3,4,5,6,8,10,12}, float64 enumeration for all n in 3..200; path budget on cells",
       "DESIGN.md §6 C17")
 
 claim("C12", "symx",
